@@ -619,9 +619,9 @@ class SymNorm(SymReal):
 
     def __init__(self, sq_term):
         self.sq = sq_term
-        r = uf("sqrt")(sq_term)
-        SymReal.__init__(self, r)
-        engine().assume(z3.And(r >= 0, r * r == sq_term), kind="axiom")
+        # the term itself is an unconstrained uf_sqrt application: mxlpy only ever compares a norm with
+        # a tolerance, and comparisons are decided on the squares below (no axiom needed, no sqrt)
+        SymReal.__init__(self, uf("sqrt")(sq_term))
 
     def _ncmp(self, o, strict, less):
         ot = to_term(o)
